@@ -652,6 +652,11 @@ def run_write_order_handler(w, r, rng):
         return
     try:
         r.count('write_order_handler_nodes')
+        # the poll thread that did the start-up writes goes on living (and polling)
+        poller = getattr(node.secnode.modules['g'], '_Module__poller', None)
+        if poller is not None and not poller.is_alive():
+            r.violation('C10/poll-thread-died-during-the-start-up-writes/common-handler', f'configured {configured}: the poll thread of the module is dead after the start', case)
+            return
         evs = list(events)
         first_poll = next((i for i, e in enumerate(evs) if e[0] == 'poll'), len(evs))
         gw = [(i, e[1]) for i, e in enumerate(evs) if e[0] == 'write-group']
